@@ -92,7 +92,12 @@ pub struct Ctx {
     pub notes: Vec<String>,
     /// replay mode: ops come from a file instead of the generator
     pub replay_ops: Option<Vec<String>>,
+    /// watchdog expiries reported so far (each leaves a spinning thread behind and costs the whole
+    /// watchdog delay: after `HANG_LIMIT` of them the run stops executing further cases)
+    pub hangs: usize,
 }
+
+pub const HANG_LIMIT: usize = 3;
 
 impl Ctx {
     pub fn new(prop: &str, tier: Tier, seed: u64) -> Self {
@@ -113,6 +118,17 @@ impl Ctx {
             samples: vec![],
             notes: vec![],
             replay_ops: None,
+            hangs: 0,
+        }
+    }
+
+    /// true once `HANG_LIMIT` watchdog expiries have been reported: the remaining cases are not run
+    pub fn hang_limit_reached(&mut self) -> bool {
+        if self.hangs >= HANG_LIMIT {
+            self.count("not_run_after_hang_limit");
+            true
+        } else {
+            false
         }
     }
 
@@ -160,6 +176,9 @@ impl Ctx {
     }
 
     pub fn fail(&mut self, case: usize, sig: &str, what: String) {
+        if sig.starts_with("hang") || sig.ends_with("hang") {
+            self.hangs += 1;
+        }
         let op = self.ops[case].clone();
         self.count(&format!("oracle_fail:{}", sig));
         // keep at most 50 failures per signature (enough for classification)
